@@ -64,7 +64,7 @@ PROPS_ADD = {
     },
     "C08": {
         "seed": 8,
-        "areas": [("receiver", 150)],
+        "areas": [("receiver", 150), ("crash", 6)],
         "assumptions": [
             "receiver half (C08_corrupt_isolated): 'undecodable' is a property of the blob (n_ok), fixed when it is "
             "stored; the harness uses not-gzip, empty and truncated-gzip blobs — blobs that make the decoder "
